@@ -26,6 +26,8 @@ thread_local! {
     /// (seq, callback counters before the call) of every sampler call (uniform or goal)
     static SAMPLE_MARKS: std::cell::RefCell<Vec<(u64, [u64; 4])>> = const { std::cell::RefCell::new(Vec::new()) };
     static SEQ: Cell<u64> = const { Cell::new(0) };
+    static LAND_READS_BASE: Cell<u64> = const { Cell::new(0) };
+    static LAND_SKIPPED: Cell<bool> = const { Cell::new(false) };
     /// If set: at the callback with this global index, jump the logical clock by JUMP_NS.
     static LAND_AT: Cell<u64> = const { Cell::new(u64::MAX) };
     static LANDED: Cell<Option<(u64, u8)>> = const { Cell::new(None) };
@@ -56,6 +58,12 @@ pub fn seam_reset() {
 pub fn set_landing(at: u64) {
     LAND_AT.with(|s| s.set(at));
     LANDED.with(|s| s.set(None));
+    LAND_READS_BASE.with(|b| b.set(oxmpl::verif::clock_reads()));
+    LAND_SKIPPED.with(|l| l.set(false));
+}
+/// true when the requested landing fell on a callback made before the call's timer was running
+pub fn landing_skipped() -> bool {
+    LAND_SKIPPED.with(|l| l.get())
 }
 pub fn landed() -> Option<(u64, u8)> {
     LANDED.with(|s| s.get())
@@ -75,6 +83,7 @@ pub fn cb_counts() -> [u64; 4] {
 }
 
 const JUMP_NS: u64 = 1 << 50;
+pub const TOTAL_CB_CAP: u64 = 5_000_000;
 
 #[inline]
 fn on_cb(kind: Cb) -> u64 {
@@ -93,8 +102,20 @@ fn on_cb(kind: Cb) -> u64 {
         c.set(a);
     });
     if LAND_AT.with(|l| l.get()) == j {
-        oxmpl::verif::clock_advance(JUMP_NS);
-        LANDED.with(|l| l.set(Some((j, kind as u8))));
+        // A deadline can only "pass" once the call has started its timer, which is certain after
+        // the first deadline check. Callbacks before it (e.g. the start-state validity query made
+        // before the timer is taken) are outside the timed region: no jump there.
+        if oxmpl::verif::clock_reads() > LAND_READS_BASE.with(|b| b.get()) {
+            oxmpl::verif::clock_advance(JUMP_NS);
+            LANDED.with(|l| l.set(Some((j, kind as u8))));
+        } else {
+            LAND_SKIPPED.with(|l| l.set(true));
+        }
+    }
+    // hard cap on callbacks per rig lifetime: a loop that never ends but keeps calling back is
+    // turned into an attributable unwinding instead of a hang (and of unbounded log growth)
+    if j > TOTAL_CB_CAP {
+        std::panic::panic_any(WorkCapHit(j));
     }
     if kind == Cb::Valid {
         let n = VALID_CNT.with(|c| {
